@@ -200,6 +200,34 @@ def run(ctx):
         kinds[k] = kinds.get(k, 0) + 1
         if b"${" in content:
             distinct.add(l)
+    # -- robsd-step -R: the fields of a row are the variables; names that are prefixes or extensions of
+    # field names, or differ in case, are unknown
+    stepf = os.path.join(root, "step.csv")
+    rows = b"step,name,exit,duration,delta,log,user,time,skip\n1,env,0,12,0,001-env.log,root,1700000000,0\n2,kernel,3,3600,-5,002-kernel.log,build,1700000100,0\n"
+    open(stepf, "wb").write(rows)
+    FIELDS = [b"step", b"name", b"exit", b"duration", b"delta", b"log", b"user", b"time", b"skip"]
+    near = FIELDS + [f[:k] for f in FIELDS for k in range(1, len(f))] + [f + b"s" for f in FIELDS] + [f.upper() for f in FIELDS] + [b"builddir", b"x"]
+    sreqs, sobs = [], []
+    for i in range(ctx.n(120, 2500)):
+        names = [rng.choice(FIELDS) if rng.random() < 0.6 else rng.choice(near) for _ in range(4)]
+        lines = [gen_template(rng, names, 0.05) for _ in range(rng.randint(1, 3))]
+        content = b"\n".join(lines) + b"\n"
+        sel = rng.choice(["1", "2", "-1"])
+        rc, out, err = core.run_cmd([os.path.join(d, "robsd-step"), "-R", "-f", stepf, "-i", sel], stdin=content)
+        rep = core.sanitizer_report(err)
+        if rep or rc not in (0, 1):
+            ctx.violation("robsd-step -R: abnormal termination", dict(stdin_hex=content.hex(), rc=rc, report=rep))
+            continue
+        if rc != 0 and (out != b"" or err == b""):
+            ctx.violation("robsd-step -R failed but printed output or no diagnostic", dict(template=content.decode(errors="replace"), rc=rc, stdout=out.decode(errors="replace")))
+        sreqs.append("step read %s i:%s %s" % (hexb(rows), sel, hexb(content)))
+        sobs.append((rc, out, content))
+        kinds["step-R-ok" if rc == 0 else "step-R-fail"] = kinds.get("step-R-ok" if rc == 0 else "step-R-fail", 0) + 1
+    sm = ctx.model(sreqs) if sreqs else []
+    for q, m, (rc, out, content) in zip(sreqs, sm, sobs):
+        if m.strip() != "%d %s" % (rc, hexb(out)):
+            ctx.disagreement("StepFile.readCmd vs robsd-step -R", dict(template=content.decode(errors="replace"), impl="%d %s" % (rc, out.decode(errors="replace")[:200]),
+                                                                       model=m[:200]))
     ctx.cov.update(dict(
         evaluations=len(cases) + len(cli_lines), distinct_nontrivial=len(distinct),
         rule="templates built from literal chunks, ${name} references and (15%) malformed fragments over environments with chains, "
